@@ -1,12 +1,34 @@
 /-
 Regenerated-table ties: facts about tables that `klogv extract` dumps from the Go toolchain /
 klog code on every run.  If the code's table changes, these theorems stop checking.
+(Further regenerated tables are used in Props/C18.lean (theme sequences) and in the model of
+`klog json` (error titles and details, KlogV/Gen/ErrorTexts.lean).)
 -/
 import KlogV.Model.Record
+import KlogV.Model.Parser
+import KlogV.Model.Reconciler
+import KlogV.Model.Calendar
 import KlogV.Gen.Zs
+import KlogV.Gen.Constants
 namespace KlogV.Tables
 
 /-- The model's `\p{Zs}` is exactly Go's `unicode.Zs`. -/
 theorem zs_table_agrees : KlogV.Gen.zsTable = KlogV.zsList := by decide
+
+/-- `txt.Indentations` — the styles and the ORDER in which parser and reconciler try them. -/
+theorem indentations_agree :
+    KlogV.Gen.indentations = KlogV.indentations.map (fun cs => cs.map Char.toNat) ∧
+    KlogV.Gen.indentations = KlogV.indentationBytes.map (fun bs => bs.map UInt8.toNat) := by decide
+
+/-- `txt.LineEndings`: CRLF is tried before LF (as `Line.ofRaw` does). -/
+theorem line_endings_agree : KlogV.Gen.lineEndings = [[13, 10], [10]] := by decide
+
+/-- the roundings klog accepts are those the C17 theorems are stated for -/
+theorem roundings_agree : KlogV.Gen.roundings = [5, 10, 12, 15, 20, 30, 60] := by decide
+
+/-- bit positions of the bucket hashes (recovered from hashes of neighbouring dates) are those of
+the model's `hashOf`, for which C15.hash_eq_iff is proved -/
+theorem hash_shifts_agree :
+    KlogV.Gen.hashShifts = [bitsDay, bitsDay + bitsMonth, bitsWeek, bitsMonth, bitsQuarter] := by decide
 
 end KlogV.Tables
